@@ -287,8 +287,8 @@ theorem cascade_sim (n : Nat) :
         have h3 := dropSessionRefs_sim (invalidateKeys_sim h1 idx sess) idx id
         rw [sessionTypedChecks_sim h3]
         exact foldE_sim
-          (fun (st : State) (c : Chk) => ensureCheckF n st idx true { c with status := critical, output := sessionCheckOutput sess critical })
-          (fun x y c hxy => ih.2 x y idx true _ hxy) _ _ _ h3
+          (fun (st : State) (c : Chk) => ensureCheckF n st idx false { c with status := critical, output := sessionCheckOutput sess critical })
+          (fun x y c hxy => ih.2 x y idx _ _ hxy) _ _ _ h3
     · intro a b idx p hc h
       rw [ensureCheckF, ensureCheckF]
       rcases erP_cases (checkPrep_sim h idx p hc) with ⟨u, v, w, hu, hv, huv⟩ | ⟨e, hu, hv⟩
@@ -319,8 +319,8 @@ theorem updateSessionCheck_sim {a b : State} (h : Sim a b) (idx : Nat) (x : Sess
     erS (updateSessionCheck a idx x st) = erS (updateSessionCheck b idx x st) := by
   simp only [updateSessionCheck, sessionTypedChecks_sim h]
   exact foldE_sim
-    (fun (s : State) (c : Chk) => ensureCheck s idx true { c with status := st, output := sessionCheckOutput x st })
-    (fun u v c huv => ensureCheck_sim huv idx true _) _ a b h
+    (fun (s : State) (c : Chk) => ensureCheck s idx false { c with status := st, output := sessionCheckOutput x st })
+    (fun u v c huv => ensureCheck_sim huv idx _ _) _ a b h
 
 theorem validateSessionChecks_sim {a b : State} (h : Sim a b) (node : String) (cs : List String) :
     validateSessionChecks a node cs = validateSessionChecks b node cs := by
